@@ -251,6 +251,8 @@ pub struct ExprError(#[from] pub(crate) ExprErrorKind);
 pub(crate) enum ExprErrorKind {
     #[error("Unexpected value {1} for signal {0}")]
     UnexpectedValueForSignal(String, OutputValue),
+    #[error("The variable {0} is read before it has been assigned a value")]
+    UnassignedVariable(String),
 }
 
 /// Could not construct static iterator
